@@ -482,6 +482,37 @@ pub fn policy(_cex: &Value) -> Result<String, String> {
         }
       }
     }
+    // critical names are compared exactly: case variants of a permitted / a pre-defined name, backed by a custom parameter of that
+    // very name (so that the "listed names are present" rule is met), are not understood extensions
+    for (name, with_b64) in [("B64", false), ("B64", true), ("b64 ", true), ("Alg", false), ("KID", false), ("X5T#s256", false), ("x5t#s256", false)] {
+      let mut h = JwsHeader::new();
+      h.set_alg(JwsAlgorithm::EdDSA);
+      if with_b64 {
+        h.set_b64(false);
+      }
+      h.set_crit([name]);
+      let mut m = std::collections::BTreeMap::new();
+      m.insert(name.to_owned(), serde_json::Value::Bool(false));
+      h.set_custom(m);
+      let tag = format!("crit [{name:?}] with a custom parameter of that name (b64 set: {with_b64})");
+      if CompactJwsEncoder::new(b"payload", &h).is_ok() {
+        log.push(format!("compact encoder accepts {tag}"));
+      }
+      let rec = Recipient::new().protected(&h);
+      if FlattenedJwsEncoder::new(b"payload", rec, false).is_ok() || GeneralJwsEncoder::new(b"payload", rec, false).is_ok() {
+        log.push(format!("json encoder accepts {tag}"));
+      }
+      let pj = identity_jose::jwu::encode_b64(serde_json::to_vec(&h).unwrap());
+      let payload = if with_b64 { "payload".to_owned() } else { identity_jose::jwu::encode_b64(b"payload") };
+      let mut si = pj.clone().into_bytes();
+      si.push(b'.');
+      si.extend_from_slice(payload.as_bytes());
+      let sig = identity_jose::jwu::encode_b64(toy_sign(&k, &si));
+      let compact = format!("{pj}.{payload}.{sig}");
+      if Decoder::new().decode_compact_serialization(compact.as_bytes(), None).is_ok() {
+        log.push(format!("decoder accepts {tag}"));
+      }
+    }
     // every shared parameter name makes the header pair overlap
     type Setter = fn(&mut JwsHeader);
     let setters: Vec<(&str, Setter)> = vec![
